@@ -53,11 +53,42 @@ theorem WF_set (m : PMem) (p4 : Word) (hwf : WF m p4) (p : List Nat) (f : Word) 
   rw [tblAt_set_eq_root m p4 hwf p f i v hp hpl hpi hv b hb hbi] at hgb
   exact hwf a b g ha hb hai hbi hga hgb
 
-/-- Every non-zero entry of every table of the hierarchy is present (holds in all states reached
-through the API with flags that contain `PRESENT`). -/
-def AllPresent (m : PMem) (p4 : Word) : Prop :=
+/-- Every non-zero entry of a table of the hierarchy is present, or satisfies the exemption `X`
+(a predicate on the length of the table's path and the entry word). -/
+def EntriesOK (X : Nat → Word → Prop) (m : PMem) (p4 : Word) : Prop :=
   ∀ p f i, p.length ≤ 3 → IdxOK p → tblAt m p4 p = some f → i < 512 → m f i ≠ 0#64 →
-    Pte.present (m f i) = true
+    Pte.present (m f i) = true ∨ X p.length (m f i)
+
+/-- A non-zero entry that may lack `PRESENT`: a *leaf* entry — an entry of a level-1 table (path
+length 3), or an entry of a level-3/level-2 table (path length 1/2) with the `HUGE_PAGE` bit: a
+page mapped without `PRESENT` (reserved / swapped out). Table links are never exempt:
+`tableOf e = some t` needs `PRESENT`. -/
+def DormantLeaf (n : Nat) (e : Word) : Prop := n = 3 ∨ (1 ≤ n ∧ Pte.huge e = true)
+
+/-- **The generalised entry invariant**: every non-zero entry of every table of the hierarchy is
+present, or it is a leaf entry (4 KiB slot, or huge-page entry of a level-3/level-2 table). -/
+def LeafOrPresent (m : PMem) (p4 : Word) : Prop := EntriesOK DormantLeaf m p4
+
+/-- The strict variant: every non-zero entry of every table of the hierarchy is present (holds in
+all states reached through the API with leaf flags that contain `PRESENT`; `C01.history_dictates`). -/
+def AllPresent (m : PMem) (p4 : Word) : Prop := EntriesOK (fun _ _ => False) m p4
+
+theorem EntriesOK.mono {X Y : Nat → Word → Prop} {m : PMem} {p4 : Word} (hXY : ∀ n e, X n e → Y n e)
+    (h : EntriesOK X m p4) : EntriesOK Y m p4 := by
+  intro p f i hp hpi hf hi hne
+  rcases h p f i hp hpi hf hi hne with h | h
+  · exact Or.inl h
+  · exact Or.inr (hXY _ _ h)
+
+theorem AllPresent.leafOrPresent {m : PMem} {p4 : Word} (h : AllPresent m p4) : LeafOrPresent m p4 :=
+  EntriesOK.mono (fun _ _ hf => hf.elim) h
+
+theorem AllPresent.present {m : PMem} {p4 : Word} (h : AllPresent m p4) (p : List Nat) (f : Word) (i : Nat)
+    (hp : p.length ≤ 3) (hpi : IdxOK p) (hf : tblAt m p4 p = some f) (hi : i < 512) (hne : m f i ≠ 0#64) :
+    Pte.present (m f i) = true := by
+  rcases h p f i hp hpi hf hi hne with h | h
+  · exact h
+  · exact h.elim
 
 /-- No level-4 entry has the `HUGE_PAGE` bit (it is reserved there). -/
 def P4NoHuge (m : PMem) (p4 : Word) : Prop := ∀ i, i < 512 → Pte.huge (m p4 i) = false
@@ -65,8 +96,62 @@ def P4NoHuge (m : PMem) (p4 : Word) : Prop := ∀ i, i < 512 → Pte.huge (m p4 
 /-- The state invariant of a mapper's page-table hierarchy. -/
 structure Inv (m : PMem) (p4 : Word) : Prop where
   wf : WF m p4
-  pres : AllPresent m p4
+  pres : LeafOrPresent m p4
   p4nh : P4NoHuge m p4
+
+/-- A non-zero, non-huge entry of a level-4/3/2 table is present (it is a table link). -/
+theorem Inv.present_of_not_huge {m : PMem} {p4 : Word} (hinv : Inv m p4) (p : List Nat) (f : Word) (i : Nat)
+    (hp : p.length ≤ 2) (hpi : IdxOK p) (hf : tblAt m p4 p = some f) (hi : i < 512) (hne : m f i ≠ 0#64)
+    (hnh : Pte.huge (m f i) = false) : Pte.present (m f i) = true := by
+  rcases hinv.pres p f i (by omega) hpi hf hi hne with h | h | ⟨_, h⟩
+  · exact h
+  · omega
+  · rw [hnh] at h; cases h
+
+/-- A non-zero entry of the level-4 table is present. -/
+theorem Inv.present_p4 {m : PMem} {p4 : Word} (hinv : Inv m p4) (i : Nat) (hi : i < 512) (hne : m p4 i ≠ 0#64) :
+    Pte.present (m p4 i) = true :=
+  hinv.present_of_not_huge [] p4 i (by simp) (fun _ h => by cases h) rfl hi hne (hinv.p4nh i hi)
+
+/-- A single-word write that keeps the tree and writes zero, a present entry or an exempt one keeps
+`EntriesOK`. -/
+theorem EntriesOK_set (X : Nat → Word → Prop) (m : PMem) (p4 : Word) (hwf : WF m p4) (h : EntriesOK X m p4)
+    (p : List Nat) (f : Word) (i : Nat) (v : Word)
+    (hp : tblAt m p4 p = some f) (hpl : p.length ≤ 3) (hpi : IdxOK p)
+    (hv : p.length = 3 ∨ tableOf v = tableOf (m f i))
+    (hpres : v = 0#64 ∨ Pte.present v = true ∨ X p.length v) : EntriesOK X (m.set f i v) p4 := by
+  intro q g j hq hqi hg hj hne
+  rw [tblAt_set_eq_root m p4 hwf p f i v hp hpl hpi hv q hq hqi] at hg
+  by_cases hw : g = f ∧ j = i
+  · obtain ⟨hgf, hji⟩ := hw
+    subst hgf; subst hji
+    have hqp : q = p := hwf q p g hq hpl hqi hpi hg hp
+    rw [PMem.set_same] at hne ⊢
+    rcases hpres with h | h | h
+    · exact absurd h hne
+    · exact Or.inl h
+    · exact Or.inr (hqp ▸ h)
+  · rw [PMem.set_other m f i v g j hw] at hne ⊢
+    exact h q g j hq hqi hg hj hne
+
+/-- A single-word write that keeps the tree, writes zero, a present entry or a (possibly
+non-present) leaf entry, and does not put `HUGE_PAGE` into the level-4 table preserves the invariant. -/
+theorem Inv_set' (m : PMem) (p4 : Word) (hinv : Inv m p4) (p : List Nat) (f : Word) (i : Nat) (v : Word)
+    (hp : tblAt m p4 p = some f) (hpl : p.length ≤ 3) (hpi : IdxOK p)
+    (hv : p.length = 3 ∨ tableOf v = tableOf (m f i))
+    (hpres : v = 0#64 ∨ Pte.present v = true ∨ DormantLeaf p.length v)
+    (hp4 : p = [] → Pte.huge v = false) : Inv (m.set f i v) p4 := by
+  refine ⟨WF_set m p4 hinv.wf p f i v hp hpl hpi hv,
+    EntriesOK_set DormantLeaf m p4 hinv.wf hinv.pres p f i v hp hpl hpi hv hpres, ?_⟩
+  intro j hj
+  by_cases hw : p4 = f ∧ j = i
+  · obtain ⟨hgf, hji⟩ := hw
+    subst hgf; subst hji
+    rw [PMem.set_same]
+    have : p = [] := hinv.wf p [] p4 hpl (by simp) hpi (fun _ h => by cases h) hp rfl
+    exact hp4 this
+  · rw [PMem.set_other m f i v p4 j hw]
+    exact hinv.p4nh j hj
 
 /-- A single-word write that keeps the tree, writes zero or a present entry, and does not put
 `HUGE_PAGE` into the level-4 table preserves the invariant. -/
@@ -74,28 +159,16 @@ theorem Inv_set (m : PMem) (p4 : Word) (hinv : Inv m p4) (p : List Nat) (f : Wor
     (hp : tblAt m p4 p = some f) (hpl : p.length ≤ 3) (hpi : IdxOK p)
     (hv : p.length = 3 ∨ tableOf v = tableOf (m f i))
     (hpres : v = 0#64 ∨ Pte.present v = true)
-    (hp4 : p = [] → Pte.huge v = false) : Inv (m.set f i v) p4 := by
-  refine ⟨WF_set m p4 hinv.wf p f i v hp hpl hpi hv, ?_, ?_⟩
-  · intro q g j hq hqi hg hj hne
-    rw [tblAt_set_eq_root m p4 hinv.wf p f i v hp hpl hpi hv q hq hqi] at hg
-    by_cases hw : g = f ∧ j = i
-    · obtain ⟨hgf, hji⟩ := hw
-      subst hgf; subst hji
-      rw [PMem.set_same] at hne ⊢
-      rcases hpres with h | h
-      · exact absurd h hne
-      · exact h
-    · rw [PMem.set_other m f i v g j hw] at hne ⊢
-      exact hinv.pres q g j hq hqi hg hj hne
-  · intro j hj
-    by_cases hw : p4 = f ∧ j = i
-    · obtain ⟨hgf, hji⟩ := hw
-      subst hgf; subst hji
-      rw [PMem.set_same]
-      have : p = [] := hinv.wf p [] p4 hpl (by simp) hpi (fun _ h => by cases h) hp rfl
-      exact hp4 this
-    · rw [PMem.set_other m f i v p4 j hw]
-      exact hinv.p4nh j hj
+    (hp4 : p = [] → Pte.huge v = false) : Inv (m.set f i v) p4 :=
+  Inv_set' m p4 hinv p f i v hp hpl hpi hv (hpres.elim Or.inl (fun h => Or.inr (Or.inl h))) hp4
+
+/-- The same write keeps the strict variant when the written word is zero or present. -/
+theorem AllPresent_set (m : PMem) (p4 : Word) (hwf : WF m p4) (h : AllPresent m p4)
+    (p : List Nat) (f : Word) (i : Nat) (v : Word)
+    (hp : tblAt m p4 p = some f) (hpl : p.length ≤ 3) (hpi : IdxOK p)
+    (hv : p.length = 3 ∨ tableOf v = tableOf (m f i))
+    (hpres : v = 0#64 ∨ Pte.present v = true) : AllPresent (m.set f i v) p4 :=
+  EntriesOK_set _ m p4 hwf h p f i v hp hpl hpi hv (hpres.elim Or.inl (fun h => Or.inr (Or.inl h)))
 
 /-- The empty hierarchy (all-zero level-4 table) satisfies the invariant. -/
 theorem Inv_init (m : PMem) (p4 : Word) (h : ∀ i, m p4 i = 0#64) : Inv m p4 := by
@@ -113,5 +186,14 @@ theorem Inv_init (m : PMem) (p4 : Word) (h : ∀ i, m p4 i = 0#64) : Inv m p4 :=
     obtain ⟨_, hgp⟩ := hroot q g hg
     subst hgp; exact absurd (h j) hne
   · intro j _; rw [h j]; decide
+
+/-- The empty hierarchy also satisfies the strict variant. -/
+theorem AllPresent_init (m : PMem) (p4 : Word) (h : ∀ i, m p4 i = 0#64) : AllPresent m p4 := by
+  have hto : ∀ i, tableOf (m p4 i) = none := by
+    intro i; rw [h i]; decide
+  intro q g j _ _ hg _ hne
+  cases q with
+  | nil => simp [tblAt] at hg; subst hg; exact absurd (h j) hne
+  | cons j' q => simp [tblAt, hto j'] at hg
 
 end X86
